@@ -269,7 +269,7 @@ def main(argv=None):
         rep = R.make_replay(prop, c, path, seed, mod, cached=done_replays.get(key))
         done_replays[key] = rep.get("replay")
         kf_tag = (rep.get("replay") or {}).get("known_finding")
-        if rep.get("reproduced") and kf_tag and any(k.get("id") == kf_tag for k in known) and match_known(known, prop, c) is None:
+        if kf_tag and any(k.get("id") == kf_tag for k in known) and match_known(known, prop, c) is None:
             # the native search only ran into a RECORDED finding (which belongs to another obligation): that says nothing about
             # this one, which stays undecided
             c["detail"] = (c.get("detail") or "") + " [native search: the recorded finding %s was met and skipped]" % kf_tag
@@ -293,6 +293,21 @@ def main(argv=None):
             else:
                 violations.append(c)
                 c["_rep"] = rep
+    # a refuted obligation that a recorded finding is filed under, whose native replay meets EXACTLY that finding (the harness
+    # says so: its observation equals the reference with the recorded defect written in): the recorded finding, not a new one
+    for c in list(violations):
+        ks = [k for k in known if k.get("status", "open") == "open" and k["property"] == prop and k["obligation"] == c["obligation"]]
+        if not ks or c in bounded:
+            continue
+        path = os.path.join(RPD, "%s-%s.json" % (prop, re.sub(r"[^A-Za-z0-9_.-]", "_", c["obligation"])))
+        rep = R.make_replay(prop, c, path, seed, mod, known=ks[0])
+        tag = (rep.get("replay") or {}).get("known_finding")
+        hit = [k for k in ks if k.get("id") == tag]
+        if rep.get("reproduced") and hit:
+            violations.remove(c)
+            kfound.append((hit[0], c))
+        else:
+            c["_rep"] = rep
     vlines = []
     for c in violations:
         path = os.path.join(RPD, "%s-%s.json" % (prop, re.sub(r"[^A-Za-z0-9_.-]", "_", c["obligation"])))
